@@ -42,7 +42,9 @@ CONSTANTS Methods,     \* request methods
           PC,          \* characters of path segments
           MaxLen,      \* longest value (in characters)
           MaxItems,    \* most query items
+          AllItems,    \* most query items in the product family "all"
           BodyItems,   \* most form / JSON items in the "body" family
+          Cross,       \* "some": every ordered pair of response classes on one connection for a few requests; "all": for more
           Family       \* which requests: "query" | "body" | "resp" | "path" | "head" | "all" | "mc" (all of those) | "cover"
 
 NoWire(i) == <<>>
@@ -57,8 +59,9 @@ VARIABLES req,      \* the request the client's user builds
           stage,    \* "new" -> "sent" -> "served" -> "done" -> "again"
           environ,  \* what the application was shown (NoEnv before)
           got,      \* what the client's user is handed (NoGot before)
-          next      \* what the client's user is handed for a further request on the same connection (NoGot before)
-vars == <<req, resp, stage, environ, got, next>>
+          follow,   \* the response the application produces for a further request on the same connection (NoResp before)
+          next      \* what the client's user is handed for that further request (NoGot before)
+vars == <<req, resp, stage, environ, got, follow, next>>
 
 (* ------------------------------------------------------------------ text helpers *)
 RECURSIVE Join(_, _), SplitAt(_, _, _), PctDec(_), PlusSp(_)
@@ -250,7 +253,7 @@ FamBody == {R(m, Plain, <<>>, <<>>, b) : m \in Methods \cap {"GET", "POST", "PUT
 FamResp == {R(m, Plain, q, <<>>, b) : m \in Methods, q \in SmallQ, b \in {NoBody, [k |-> "raw", data |-> <<"a">>]}}
 FamPath == {R(m, path, <<>>, <<>>, NoBody) : m \in Methods \cap {"GET", "PUT"}, path \in Paths}
 FamHead == {R(m, Plain, <<>>, hs, b) : m \in Methods \cap {"GET", "POST"}, hs \in HeadSets, b \in {NoBody, [k |-> "raw", data |-> <<"a">>]}}
-FamAll == {R(m, Plain, q, <<>>, b) : m \in Methods, q \in Items(QC, MaxItems), b \in OneOfEach}
+FamAll == {R(m, Plain, q, <<>>, b) : m \in Methods, q \in Items(QC, AllItems), b \in OneOfEach}
 \* the family replayed on the real programs: every value of <= 2 characters alone, every pair of values of <= 1 character
 FamCover == {R(m, Plain, q, <<>>, NoBody) : m \in Methods \cap {"GET", "POST"}, q \in CoverItems(QC)}
             \cup {R(m, Plain, <<>>, <<>>, [k |-> "form", items |-> it]) : m \in Methods \cap {"POST", "PUT"}, it \in CoverItems(FC)}
@@ -282,32 +285,50 @@ FewResponses(m) == IF m = "HEAD" THEN Responses(m)
 NoEnv == [method |-> <<>>]
 NoGot == [status |-> 0]
 Init == /\ req \in Requests
-        /\ resp = NoResp /\ stage = "new" /\ environ = NoEnv /\ got = NoGot /\ next = NoGot
+        /\ resp = NoResp /\ stage = "new" /\ environ = NoEnv /\ got = NoGot /\ follow = NoResp /\ next = NoGot
 
 AllResponses == UNION {Responses(m) : m \in Methods}
 Offered(r) == IF req \in FamResp THEN r \in Responses(req.method) ELSE r \in FewResponses(req.method)
 \* the client's user hands the request over; the client puts it on the wire
 ClientRequest == /\ stage = "new" /\ stage' = "sent"
-                 /\ UNCHANGED <<req, resp, environ, got, next>>
+                 /\ UNCHANGED <<req, resp, environ, got, follow, next>>
 \* the server reads the request, shows it to the application, the application answers r
 ServerService(r) == /\ stage = "sent" /\ stage' = "served"
                     /\ Offered(r)
                     /\ environ' = Environ(Parsed(ReqWire(req), "req", FALSE))
                     /\ resp' = r
-                    /\ UNCHANGED <<req, got, next>>
+                    /\ UNCHANGED <<req, got, follow, next>>
 \* the client reads the response
 ClientService == /\ stage = "served" /\ stage' = "done"
                  /\ got' = Got(Parsed(RespWire(resp, req.method = "HEAD"), "resp", req.method = "HEAD"))
-                 /\ UNCHANGED <<req, resp, environ, next>>
+                 /\ UNCHANGED <<req, resp, environ, follow, next>>
 \* a further request on the same persistent connection: its response follows the first one on the wire, the client
 \* goes on reading where the first response ended
-Follow == [status |-> 200, heads |-> <<>>, shape |-> "fixed", pieces |-> <<<<"n", "x", "t">>>>]
-FollowUp == /\ stage = "done" /\ stage' = "again"
-            /\ LET hd == req.method = "HEAD"
-                   first == HP!Run([HP!P0 EXCEPT !.buf = RespWire(resp, hd) \o RespWire(Follow, FALSE)], "resp", FALSE, hd) IN
-               next' = Got(HP!Result(HP!Run([HP!P0 EXCEPT !.buf = first.buf], "resp", FALSE, FALSE)))
-            /\ UNCHANGED <<req, resp, environ, got>>
-Next == \/ ClientRequest \/ ClientService \/ FollowUp
+\* The further request is a plain GET; its response is one of each class: fixed length, streamed without a length,
+\* empty, bodiless, an error raised by the application - so that every ordered pair of classes occurs on a connection.
+Follows == {[status |-> 200, heads |-> <<>>, shape |-> "fixed", pieces |-> <<<<"n", "x", "t">>>>],
+            [status |-> 200, heads |-> <<>>, shape |-> "chunked", pieces |-> <<LongPiece, <<"b">>>>],
+            [status |-> 200, heads |-> <<>>, shape |-> "empty", pieces |-> <<>>],
+            [status |-> 204, heads |-> <<>>, shape |-> "empty", pieces |-> <<>>],
+            [status |-> 404, heads |-> <<>>, shape |-> "error", pieces |-> <<>>]}
+\* where the cross product is not taken the follow-up is of another class than the first response (after a response
+\* with a length a streamed one, and so on)
+DefaultFollow(r) == CHOOSE f \in Follows :
+    CASE r.shape \in {"fixed", "error"} /\ r.pieces # <<>> -> f.shape = "chunked"
+      [] r.shape \in {"fixed", "error"} -> f.shape = "chunked"
+      [] r.shape = "chunked" -> f.shape = "fixed"
+      [] r.status \in {204, 304} -> f.shape = "chunked"
+      [] OTHER -> f.shape = "error"
+CrossProduct == req \in FamResp /\ (Cross = "all" \/ (req.method \in {"GET", "HEAD"} /\ req.query = <<>>))
+FollowUp(f) == /\ stage = "done" /\ stage' = "again"
+               /\ f \in Follows /\ (CrossProduct \/ f = DefaultFollow(resp))
+               /\ follow' = f
+               /\ LET hd == req.method = "HEAD"
+                      first == HP!Run([HP!P0 EXCEPT !.buf = RespWire(resp, hd) \o RespWire(f, FALSE)], "resp", FALSE, hd) IN
+                  next' = Got(HP!Result(HP!Run([HP!P0 EXCEPT !.buf = first.buf], "resp", FALSE, FALSE)))
+               /\ UNCHANGED <<req, resp, environ, got>>
+Next == \/ ClientRequest \/ ClientService
+        \/ \E f \in Follows : FollowUp(f)
         \/ \E r \in AllResponses : ServerService(r)
 Spec == Init /\ [][Next]_vars
 
@@ -315,7 +336,7 @@ Spec == Init /\ [][Next]_vars
 RoundTripRequest == (stage \in {"served", "done", "again"}) => environ = ExpectedEnv(req)
 RoundTripResponse == (stage \in {"done", "again"}) => got = ExpectedGot(resp)
 \* every response is delimited: the one to the next request on the connection arrives intact
-NextIntact == (stage = "again") => next = ExpectedGot(Follow)
+NextIntact == (stage = "again") => next = ExpectedGot(follow)
 RoundTrip == RoundTripRequest /\ RoundTripResponse /\ NextIntact
 \* the wire image of a request is a single well delimited message: nothing is left over
 NothingLeft == (stage = "sent") => HP!Run([HP!P0 EXCEPT !.buf = ReqWire(req)], "req", FALSE, FALSE).buf = <<>>
